@@ -150,7 +150,7 @@ theorem countsBy_eq (f : Byte → Byte) (cs : List Byte) : countsBy f cs = Spec.
   rw [h0] at this
   simpa [countsBy] using this
 
-theorem upper_eq : Spec.upper = toUpper := by
+theorem upper_eq : Spec.upperCase = toUpper := by
   funext c; rfl
 
 /-- the naive count table depends on the multiset of characters only -/
